@@ -31,6 +31,7 @@ def upper1(c):
 LOWER = z3.Function("py_lower", StrS, StrS)   # whole-string lower(), axiomatised on use
 UPPER = z3.Function("py_upper", StrS, StrS)
 STRIP = z3.Function("py_strip", StrS, StrS)
+WC = z3.Function("spec_write_continue_output", StrS, IntS, StrS, StrS)
 JOINPRE = z3.Function("py_joinpre", z3.ArraySort(IntS, StrS), IntS, StrS)
 TOINT = z3.Function("py_int_of_str", StrS, IntS)
 INTOK = z3.Function("py_int_parses", StrS, BoolS)
@@ -220,7 +221,20 @@ class MethodsMixin(object):
         return z3.Concat(*pieces) if len(pieces) > 1 else pieces[0]
 
     def str_split(self, s, args, st, node):
-        raise OutOfSubset("str.split", node)
+        """s.split(sep): an uninterpreted list of pieces; only what callers need is axiomatised:
+        at least one piece when a separator is given; no piece contains the separator (single-char sep)."""
+        n = z3.Int(fresh_name("split_len"))
+        arr = z3.Array(fresh_name("split_arr"), IntS, StrS)
+        if args:
+            sep = self.want_str(args[0], st, node)
+            st.assume(n >= 1)
+            st.qf.append(QFact(z3.IntVal(0), n, lambda i, arr=arr, sep=sep: z3.Not(z3.Contains(z3.Select(arr, i), sep)), "split-nosep"))
+            st.assume(z3.Implies(z3.Not(z3.Contains(s, sep)), z3.And(n == 1, z3.Select(arr, 0) == s)))
+            self.assumptions.add("str.split(sep): pieces are non-overlapping, >= 1 piece, none contains sep, and a string without sep is its own single piece (other properties of split left abstract)")
+        else:
+            st.assume(n >= 0)
+            self.assumptions.add("str.split(): pieces abstract")
+        return st.alloc(HList("str", n, arr))
 
     def py_method(self, base, name, st, node):
         """method on a dynamically typed value: only str has the str methods."""
@@ -517,7 +531,10 @@ class MethodsMixin(object):
             a = self.truth(self.ev(node.args[0], st), st)
             st.guards.append(a)
             try:
-                b = self.truth(self.ev(node.args[1], st), st)
+                bv = self.ev(node.args[1], st)
+                if isinstance(bv, VQ):
+                    return VQ(bv.lo, bv.hi, lambda i, a=a, bv=bv: z3.Implies(a, bv.body(i)))
+                b = self.truth(bv, st)
             finally:
                 st.guards.pop()
             return VBool(z3.Implies(a, b))
@@ -538,7 +555,23 @@ class MethodsMixin(object):
             v = self.ev(node.args[0], st)
             return self.str_method(v, "rstrip", st, node).fn(self, st, [], {}, node)
 
-        return dict(code=_sf_code(self), all=sf_all, old=sf_old, implies=sf_implies, iff=sf_iff, allws=sf_allws,
+        def sf_isint(node, st):
+            v = self.ev(node.args[0], st)
+            return VBool(self.isinstance1(v, "int", st, node))
+
+        def sf_isstr(node, st):
+            v = self.ev(node.args[0], st)
+            return VBool(self.isinstance1(v, "str", st, node))
+
+        def sf_asstr(node, st):
+            v = self.ev(node.args[0], st)
+            return VStr(PyVal.ps(v.e)) if isinstance(v, VPy) else v
+
+        def sf_wc(node, st):
+            a = [self.ev(x, st) for x in node.args]
+            return VStr(WC(a[0].e, a[1].e, a[2].e))
+
+        return dict(isint=sf_isint, isstr=sf_isstr, asstr=sf_asstr, WC=sf_wc, code=_sf_code(self), all=sf_all, old=sf_old, implies=sf_implies, iff=sf_iff, allws=sf_allws,
                     lstrip=sf_lstrip, rstrip=sf_rstrip)
 
 
